@@ -696,6 +696,23 @@ def stage_sphere(ctx):
         jobs.append(dict(kind="field", scat=sp, points=pts, theories=["lens:0.8:tmatrix", "lens:0.8:mie"],
                          nmed=NMED, wavelen=WAVELEN))
         metas.append(dict(what="lens-vs-mie", x=x, scat=sp, points=pts))
+    # "round" geometries: radius, wavelength and medium index that are short binary fractions make the size parameter an
+    # exact multiple of pi/2 in double precision (r = j/8 at wavelength 0.5 in air: x = j pi/2) - the zeros of cos x and
+    # sin x, where a Bessel recurrence seeded with cos x / x or sin x / x loses its starting value
+    halfpi = []
+    for j in range(1, 13):
+        for (nm, wl, rr) in ((1.0, 0.5, j / 8.0), (1.25, 0.625, j / 8.0), (1.5, 0.75, j / 8.0), (1.0, 1.0, j / 4.0)):
+            halfpi.append((j, nm, wl, rr))
+    rng.shuffle(halfpi)
+    halfpi.sort(key=lambda t: (t[1], t[2]) != (1.0, 0.5))          # the plain air / 0.5 family always runs
+    for (j, nm, wl, rr) in halfpi[:ctx.n(16, 48)]:
+        n = [rng.choice([1.5, 1.59, 1.2]) * nm, 0.0 if rng.random() < 0.7 else 0.02]
+        sp2 = dict(kind="sphere", n=n, r=rr, center=[0.0, 0.0, 0.0])
+        th = [rng.uniform(0.05, 1.0) for _ in range(4)] + [rng.uniform(1.0, 3.0)]
+        ph = [rng.uniform(0, 2 * math.pi) for _ in range(5)]
+        jobs.append(dict(kind="smat", scat=sp2, theta=th, phi=ph, theories=["tmatrix", "mie"], nmed=nm, wavelen=wl))
+        metas.append(dict(what="smatrix-vs-mie:x-multiple-of-half-pi", x=j * math.pi / 2, scat=sp2, theta=th, phi=ph,
+                          nmed=nm, wavelen=wl))
     sp = dict(kind="sphere", n=[1.59, 0.0], r=0.45, center=[1.1, 0.8, 4.0])
     jobs.append(dict(kind="holo", scat=sp, shape=12, spacing=0.2, theories=["tmatrix", "mie"], nmed=NMED, wavelen=WAVELEN))
     metas.append(dict(what="holo-vs-mie", x=0.45 * K, scat=sp))
@@ -733,7 +750,13 @@ def stage_sphere(ctx):
             tol = SPHERE_TOL if m["what"] != "lens-vs-mie" else 1e-3
         worst[m["what"]] = max(worst.get(m["what"], 0.0), d)
         ctx.nontriv(("sphere", m["what"], round(math.log10(m["x"]), 1)))
-        if d > tol:
+        if d > tol and m["what"].endswith("x-multiple-of-half-pi"):
+            ctx.violation("sphere-limit:x-multiple-of-half-pi",
+                          "sphere r=%r at wavelength %r in medium %r (size parameter %d*pi/2 exactly): T-matrix differs from "
+                          "far-field Lorenz-Mie: relative difference %.3g (tolerance %g)" % (
+                              m["scat"]["r"], m["wavelen"], m["nmed"], round(m["x"] / (math.pi / 2)), d, tol),
+                          dict(kind="explore", **m, rel_diff=d, result=o))
+        elif d > tol:
             key = "sphere:" + m["what"] if m["what"] == "spheroid-aa-vs-sphere" else "azimuth:" + m["what"]
             ctx.violation(key, "sphere, size parameter %.3g: T-matrix differs from far-field Lorenz-Mie off the "
                           "phi=0 plane (%s): relative difference %.3g (tolerance %g)" % (m["x"], m["what"], d, tol),
@@ -951,6 +974,15 @@ def stage_survive(ctx):
         axi = cube_root_of(sp) * (1.5 if sp["kind"] == "cylinder" else 1.0)
         cls = "size-limit" if ixxx_of(axi, lam) > 120 else "nonconvergence"
         add(sp, cls)
+    # sizes far beyond anything that converges, up to the largest doubles (a size parameter beyond 2**31 does not fit the
+    # solver's INTEGER), and sizes that underflow: "any size" includes them
+    huge = [3e8, 1e9, 4e9, 1e12, 1e30, 1e100, 1e200, 1e-30, 1e-120, 1e-300]
+    for k in range(ctx.n(12, 40)):
+        s = huge[k] if k < len(huge) else 10.0 ** rng.uniform(4, 300) if k % 2 else 10.0 ** -rng.uniform(20, 300)
+        sp = [dict(kind="sphere", n=[1.5, 0.0], r=s),
+              dict(kind="spheroid", n=[1.5, 0.0], r=[s / 2, s], rotation=[0, 0.4, 0.3]),
+              dict(kind="cylinder", n=[1.5, 0.0], d=s, h=s / 2, rotation=[0, 0.4, 0.3])][k % 3]
+        add(sp, "size-overflow" if s > 1 else "size-underflow")
     # sizes no particle has: negative or zero semi-axes / diameters / heights / radii (a sampler proposes them when a size
     # has a Gaussian prior); "any size" includes them: a Python exception is the expected outcome, not a dead interpreter
     bad = [dict(kind="spheroid", n=[1.5, 0.0], r=[-0.4, 0.6], rotation=[0, 0.4, 0.3]),
@@ -985,7 +1017,8 @@ def stage_survive(ctx):
         if oc == "died":
             key = {"euler-angle-guard": "stop:euler-angle-guard", "size-limit": "stop:size-limit",
                    "nonconvergence": "stop:nonconvergence", "detector-angle-guard": "stop:detector-angle-guard",
-                   "bad-size": "stop:negative-size"}.get(
+                   "bad-size": "stop:negative-size", "size-overflow": "stop:size-overflow",
+                   "size-underflow": "stop:size-underflow"}.get(
                        m["cls"], "stop:other:" + m["cls"])
             ctx.violation(key, "the interpreter was terminated (exit status %s, Fortran STOP) by a T-matrix calculation: %s %s"
                           % (r.get("rc"), m["cls"], json.dumps({k: v for k, v in m["scat"].items() if k != "center"})),
